@@ -312,6 +312,10 @@ func init() {
 	reg("math.Log10", func(fr *frame, a []value) value { return math.Log10(cf64(a[0])) })
 	reg("math.Pow", func(fr *frame, a []value) value { return math.Pow(cf64(a[0]), cf64(a[1])) })
 	reg("strconv.FormatFloat", func(fr *frame, a []value) value {
+		if isSym(a[0]) {
+			stubHit("strconv.FormatFloat (symbolic number -> placeholder numeral)")
+			return "0"
+		}
 		return ext۰strconv۰FormatFloat(fr, []value{conc(a[0]), conc(a[1]), conc(a[2]), conc(a[3])})
 	})
 	reg("os.Getenv", func(fr *frame, a []value) value { return "" })
@@ -363,6 +367,13 @@ func init() {
 	})
 	reg("internal/bytealg.MakeNoZero", func(fr *frame, a []value) value {
 		n := asInt64(a[0])
+		if n < 0 || n > 1<<47 {
+			panic(runtimeError{"makeslice: len out of range"})
+		}
+		if n > maxAlloc {
+			ex.Cover("huge-allocation", BoolT(true))
+			panic(pathEnd{"allocation larger than engine limit"})
+		}
 		s := make([]value, n)
 		for i := range s {
 			s[i] = uint8(0)
@@ -392,6 +403,92 @@ func init() {
 		stubHit("x/text Decoder.Bytes (identity)")
 		return tuple{a[1], iface{}}
 	})
+
+	// ---- strconv on symbolic numbers: contract stub "some numeral" (number formatting is
+	// never the subject when the number is symbolic; concrete arguments run the real code)
+	numStub := func(name string, symArg int, isAppend bool) {
+		orig := name
+		reg(orig, func(fr *frame, a []value) value {
+			if !isSym(a[symArg]) {
+				// run the real body
+				return runBody(fr.i, fr, fr.fn, a, nil)
+			}
+			stubHit(orig + " (symbolic number -> placeholder numeral)")
+			if isAppend {
+				return append(a[0].([]value), uint8('0'))
+			}
+			return "0"
+		})
+	}
+	bigStub := func(name string) {
+		reg(name, func(fr *frame, a []value) value {
+			symbolic := false
+			if p, ok := a[0].(*value); ok && p != nil {
+				if st, ok := (*p).(structure); ok && len(st) == 2 {
+					if ws, ok := st[1].([]value); ok {
+						for _, w := range ws {
+							if isSym(w) {
+								symbolic = true
+							}
+						}
+					}
+				}
+			}
+			if !symbolic {
+				return runBody(fr.i, fr, fr.fn, a, nil)
+			}
+			stubHit(name + " (symbolic big integer -> placeholder numeral)")
+			return "0"
+		})
+	}
+	reg("(*math/big.Int).Append", func(fr *frame, a []value) value {
+		symbolic := false
+		if p, ok := a[0].(*value); ok && p != nil {
+			if st, ok := (*p).(structure); ok && len(st) == 2 {
+				if ws, ok := st[1].([]value); ok {
+					for _, w := range ws {
+						if isSym(w) {
+							symbolic = true
+						}
+					}
+				}
+			}
+		}
+		if !symbolic {
+			return runBody(fr.i, fr, fr.fn, a, nil)
+		}
+		stubHit("(*math/big.Int).Append (symbolic big integer -> placeholder numeral)")
+		return append(a[1].([]value), uint8('0'))
+	})
+	bigStub("(*math/big.Int).Text")
+	bigStub("(*math/big.Int).String")
+	numStub("strconv.FormatInt", 0, false)
+	numStub("strconv.FormatUint", 0, false)
+	numStub("strconv.Itoa", 0, false)
+	numStub("strconv.AppendInt", 1, true)
+	numStub("strconv.AppendUint", 1, true)
+	numStub("strconv.AppendFloat", 1, true)
+
+	// ---- third-party / reflective encoders: contract stubs ("returns without panic for
+	// arguments satisfying the documented precondition"); their own code is outside every claim
+	nilErr := func(name string) {
+		reg(name, func(fr *frame, a []value) value { stubHit(name + " (contract stub)"); return iface{} })
+	}
+	nilErr("(*github.com/BurntSushi/toml.Encoder).Encode")
+	nilErr("(*gopkg.in/yaml.v3.Encoder).Encode")
+	nilErr("(*gopkg.in/yaml.v3.Encoder).Close")
+	reg("(*gopkg.in/yaml.v3.Encoder).SetIndent", func(fr *frame, a []value) value {
+		stubHit("yaml.Encoder.SetIndent (contract stub, precondition checked)")
+		if conc(symBinop(token.LSS, nil, a[1], 0)).(bool) {
+			panic(targetPanic{iface{fr.i.runtimeErrorString, "yaml: cannot indent to a negative number"}})
+		}
+		return nil
+	})
+	nilErr("(*encoding/xml.Encoder).Encode")
+	nilErr("(*encoding/xml.Encoder).EncodeElement")
+	nilErr("(*encoding/xml.Encoder).EncodeToken")
+	nilErr("(*encoding/xml.Encoder).Flush")
+	nilErr("(*encoding/xml.Encoder).Close")
 
 	// ---- misc runtime-internal ----
 	reg("sync.runtime_registerPoolCleanup", func(fr *frame, a []value) value { return nil })
@@ -660,4 +757,185 @@ func symBinopEq(a, b value) value {
 		return x == b.(*value)
 	}
 	return equals(nil, a, b)
+}
+
+// ---- mapstruct.ToStruct: jq object -> option struct (reflection based in the
+// real code: creasty/defaults + mitchellh/mapstructure). Implemented for the
+// field kinds fq's option structs use: string, bool, int kinds, float64, any,
+// nested structs and []string/[]any are left at their zero/default value when
+// the input has another shape (reported as an error like mapstructure does).
+
+func camelToSnake(s string) string {
+	var sb strings.Builder
+	rs := []rune(s)
+	for i, r := range rs {
+		sb.WriteRune(r)
+		if i+1 < len(rs) && r >= 'a' && r <= 'z' && rs[i+1] >= 'A' && rs[i+1] <= 'Z' {
+			sb.WriteByte('_')
+		}
+	}
+	return strings.ToLower(sb.String())
+}
+
+func setDefaultFromTag(ft types.Type, tag string) (value, bool) {
+	bk, ok := basicKindOf(ft)
+	if !ok {
+		return nil, false
+	}
+	switch {
+	case bk == types.String:
+		return tag, true
+	case bk == types.Bool:
+		return tag == "true", true
+	case kindFloat(bk):
+		var f float64
+		fmt.Sscanf(tag, "%g", &f)
+		return constOfKind(bk, math.Float64bits(f)), bk == types.Float64
+	default:
+		var n int64
+		fmt.Sscanf(tag, "%d", &n)
+		return constOfKind(bk, uint64(n)), true
+	}
+}
+
+func structTagGet(tag, key string) (string, bool) {
+	// minimal reflect.StructTag.Lookup
+	for tag != "" {
+		i := 0
+		for i < len(tag) && tag[i] == ' ' {
+			i++
+		}
+		tag = tag[i:]
+		if tag == "" {
+			break
+		}
+		i = 0
+		for i < len(tag) && tag[i] != ':' && tag[i] != '"' && tag[i] != ' ' {
+			i++
+		}
+		if i == 0 || i+1 >= len(tag) || tag[i] != ':' || tag[i+1] != '"' {
+			break
+		}
+		name := tag[:i]
+		tag = tag[i+1:]
+		i = 1
+		for i < len(tag) && tag[i] != '"' {
+			if tag[i] == '\\' {
+				i++
+			}
+			i++
+		}
+		if i >= len(tag) {
+			break
+		}
+		q := tag[1:i]
+		tag = tag[i+1:]
+		if name == key {
+			return q, true
+		}
+	}
+	return "", false
+}
+
+func toStructValue(fr *frame, ft types.Type, in value) (value, string) {
+	if ii, ok := in.(iface); ok {
+		if _, isIface := ft.Underlying().(*types.Interface); isIface {
+			return ii, ""
+		}
+		if ii.t == nil {
+			return nil, "" // nil input leaves the field
+		}
+		in = ii.v
+	}
+	bk, isBasic := basicKindOf(ft)
+	if !isBasic {
+		if _, isIface := ft.Underlying().(*types.Interface); isIface {
+			return in, ""
+		}
+		return nil, "unsupported field type " + ft.String()
+	}
+	ik, inScalar := kindOfValue(in)
+	switch {
+	case bk == types.String:
+		switch in.(type) {
+		case string, symStr:
+			return in, ""
+		}
+		return nil, "expected type 'string'"
+	case bk == types.Bool:
+		if inScalar && ik == types.Bool {
+			return in, ""
+		}
+		return nil, "expected type 'bool'"
+	case kindFloat(bk):
+		if inScalar && ik != types.Bool {
+			if s, ok := in.(sym); ok {
+				return symConvNum(bk, s), ""
+			}
+			return conv(ft, types.Typ[ik], in), ""
+		}
+		return nil, "expected type 'float'"
+	default:
+		if inScalar && ik != types.Bool {
+			if s, ok := in.(sym); ok {
+				return symConvNum(bk, s), ""
+			}
+			return conv(types.Typ[bk], types.Typ[ik], in), ""
+		}
+		return nil, "expected type 'int'"
+	}
+}
+
+func init() {
+	externals["github.com/wader/fq/internal/mapstruct.ToStruct"] = func(fr *frame, a []value) value {
+		stubHit("mapstruct.ToStruct (engine implementation of the reflective option decoder)")
+		target := a[1].(iface)
+		pt, ok := target.t.Underlying().(*types.Pointer)
+		if !ok {
+			panic(unsupported{"mapstruct.ToStruct target " + target.t.String()})
+		}
+		st, ok := pt.Elem().Underlying().(*types.Struct)
+		if !ok {
+			panic(unsupported{"mapstruct.ToStruct target " + target.t.String()})
+		}
+		sv := (*target.v.(*value)).(structure)
+		// defaults
+		for i := 0; i < st.NumFields(); i++ {
+			if d, ok := structTagGet(st.Tag(i), "default"); ok {
+				if v, ok := setDefaultFromTag(st.Field(i).Type(), d); ok {
+					sv[i] = v
+				}
+			}
+		}
+		m := a[0].(iface)
+		if m.t == nil {
+			return iface{}
+		}
+		mm, ok := m.v.(map[value]value)
+		if !ok {
+			return mkError(fr, "mapstruct: expected a map", nil)
+		}
+		for i := 0; i < st.NumFields(); i++ {
+			f := st.Field(i)
+			if !f.Exported() {
+				continue
+			}
+			key := camelToSnake(f.Name())
+			if t, ok := structTagGet(st.Tag(i), "mapstruct"); ok && t != "" {
+				key = strings.Split(t, ",")[0]
+			}
+			in, ok := mm[key]
+			if !ok {
+				continue
+			}
+			v, errs := toStructValue(fr, f.Type(), in)
+			if errs != "" {
+				return mkError(fr, "mapstruct: '"+f.Name()+"' "+errs, nil)
+			}
+			if v != nil {
+				sv[i] = v
+			}
+		}
+		return iface{}
+	}
 }
